@@ -204,7 +204,11 @@ class URI(with_metaclass(URIType)):
 
 		uri, __, fragment = uri.partition(b'#')
 		uri, __, query_string = uri.partition(b'?')
-		scheme, authority_exists, uri = uri.rpartition(b'://')
+		scheme, authority_exists, rest = uri.partition(b'://')
+		if authority_exists:
+			uri = rest
+		else:
+			scheme = b''
 		if not authority_exists and uri.startswith(b'//'):
 			uri = uri[2:]
 			authority_exists = True
